@@ -1,6 +1,7 @@
 package rules
 
 import (
+	"os"
 	"fmt"
 	"go/types"
 	"sort"
@@ -659,6 +660,77 @@ func runC10(p *core.Prog, r *core.Report, tier string) {
 			sort.Strings(onlyR)
 			r.Check(len(onlyW) == 0 && len(onlyR) == 0 && len(written) > 0, "C10.i", n+"|field-tables-agree", p.Pos(m.Pos()), fmt.Sprintf("%d fields written and read back", len(written)),
 				fmt.Sprintf("MarshalJSON/UnmarshalJSON of %s disagree: written but never read %v, read but never written %v (a round trip loses or invents settings)", n, onlyW, onlyR))
+			// an optional (pointer) setting is written whenever it is set: the empty output is produced only on the
+			// edge <field> == nil. Anything narrower (e.g. "and greater than zero") drops an explicit zero override on a
+			// round trip, after which the value of a less specific tier applies.
+			for _, sl := range core.StructLits(m, "JSON") {
+				for fld, v := range sl.Fields {
+					st := sl.Stores[fld]
+					if st == nil {
+						continue
+					}
+					leaves := core.PhiLeaves(v, st)
+					if len(leaves) < 2 {
+						continue
+					}
+					var optField *core.VD
+					if os.Getenv("VCHECK_DEBUG10") != "" {
+						for _, lf := range leaves {
+							fmt.Printf("DBG10 %s %s leaf %s\n", n, fld, ds.D(lf.V))
+						}
+					}
+					for _, lf := range leaves {
+						ds.D(lf.V).Walk(func(x *core.VD) bool {
+							if x.Kind == "field" && len(x.Args) == 1 && x.Args[0].Kind == "param" && x.Args[0].Name == m.Params[0].Name() {
+								if rs, ok := derefStruct(m.Params[0].Type()); ok {
+									for i := 0; i < rs.NumFields(); i++ {
+										if rs.Field(i).Name() == x.Name {
+											if _, isPtr := rs.Field(i).Type().Underlying().(*types.Pointer); isPtr {
+												optField = x
+											}
+										}
+									}
+								}
+							}
+							return true
+						})
+					}
+					if optField == nil {
+						continue
+					}
+					for _, lf := range leaves {
+						c, ok := lf.V.(*ssa.Const)
+						if !ok || (c.Value != nil && c.Value.ExactString() != `""`) {
+							continue
+						}
+						fs := optField.String()
+						w := core.UnguardedLeaf(ds, m, nil, lf, func(cd core.Cond) int {
+							if cd.Op == "" || cd.X == nil || cd.Y == nil {
+								return -1
+							}
+							var o *core.VD
+							if cd.Y.Kind == "const" && cd.Y.Name == "nil" {
+								o = cd.X
+							} else if cd.X.Kind == "const" && cd.X.Name == "nil" {
+								o = cd.Y
+							} else {
+								return -1
+							}
+							if o.String() != fs {
+								return -1
+							}
+							for e := 0; e < 2; e++ {
+								if cd.RelOnEdge(e) == "==" {
+									return e
+								}
+							}
+							return -1
+						})
+						r.Check(w == nil, "C10.i", n+"|"+fld+"|written-whenever-set", p.Pos(st.Pos()), "left empty only when "+fs+" is nil",
+							"the output field "+fld+" can be left empty although "+fs+" is set: an explicit override (such as zero) is lost on a marshal/unmarshal round trip and a less specific value then applies", p.WitnessText(w)...)
+					}
+				}
+			}
 			// scalings
 			md, ud := callNames(m), callNames(u)
 			if md["time.Duration.Milliseconds"] {
